@@ -15,6 +15,13 @@ pub fn generate(tier: &str, rng: &mut Rng) -> Vec<Spec> {
         let alpha: &[i64] = if ty == "f64" { &[0, 1, 3, 50] } else { &[0, 2, 40] };
         for xs in super::all_seqs(alpha, if t { 6 } else { if ty == "f64" { 5 } else { 4 } }) {
             v.push(Spec::new("hampel").with("N", n).with("thr", thr).with("ty", ty).with("xs", join(&xs))); } } } }
+    // samples just inside / just outside the pass bound thr*1.4826*MAD (a wrong scale factor or a >= for > shows here)
+    for n in 2..=(if t { 6 } else { 4 }) { for thr in ["1/2", "1", "2", "3"] { for m in 1..=(if t { 60 } else { 30 }) {
+        let tq = Rat::parse(thr); let bound = (Rat::int(m) * Rat::new(14826, 10000) * tq).to_f64().floor() as i64;
+        for x in [m + bound, m + bound + 1, m - bound, m - bound - 1] {
+            let mut xs = vec![0i64]; xs.extend(std::iter::repeat(m).take(n - 1)); xs.push(x); xs.push(m);
+            v.push(Spec::new("hampel").with("N", n).with("thr", thr).with("ty", if m % 3 == 0 { "f32" } else { "f64" }).with("xs", join(&xs)));
+        } } } }
     for _ in 0..(if t { 4000 } else { 500 }) {
         let n = rng.range(1, 9) as usize; let len = rng.range(2, if t { 80 } else { 30 }) as usize;
         let mut cur = rng.range(-5, 5);
